@@ -16,3 +16,29 @@ fn h_w_dns_query_name_total() {
     let r = std::panic::catch_unwind(|| msg.question.query_name().is_ok());
     assert!(r.is_ok(), "query_name() panicked on a non-UTF-8 name");
 }
+
+//# id=witness.roundtrip props=C08 kind=witness pair=dns.DnsMessage.to_message.emits_the_wire_layout,dns.DnsMessage.from_bytes.decoding_the_encoding_gives_back_the_value,dns.DnsMessage.from_bytes.reencoding_reproduces_the_consumed_bytes,dns.DnsHeader.build.emits_the_header_layout,dns.DnsQuestion.build.emits_the_question_layout,dns.DnsResourceRecord.build.emits_the_record_layout,dns.DnsMessage.from_bytes.safety
+// decode(encode(x)) == x field by field and encode(decode(b)) == b on concrete values (empty names, empty and long RDATA)
+#[cfg(vx_replay)]
+#[test]
+fn h_w_dns_roundtrip() {
+    for (qn, an, ttl, rdata) in [(&b"example.com"[..], &b"example.com"[..], 1600u32, vec![10u8, 11, 12, 13]), (&b""[..], &b"a"[..], 0, vec![]), (&b"x"[..], &b""[..], u32::MAX, vec![0x20; 300])] {
+        let mut rr = DnsResourceRecord::new(an.to_vec(), ttl, Ipv4Address::new([1, 2, 3, 4]));
+        rr.rdlength = rdata.len() as u16;
+        rr.rdata = rdata.clone();
+        let mut q = DnsQuestion::new(qn.to_vec());
+        q.qtype = 0x1234;
+        q.qclass = 0xfffe;
+        let mut h = DnsHeader::new(0xbeef, DnsMessageType::RESPONSE);
+        h.qdcount = 1;
+        h.ancount = 0x0102;
+        h.nscount = 0xff00;
+        h.arcount = 0x00ff;
+        let wire = DnsMessage::new(h, q, rr).unwrap().to_message().unwrap().to_vec();
+        let m = DnsMessage::from_bytes(wire.clone().into_iter()).expect("decodes");
+        assert_eq!((m.header.id, m.header.properties, m.header.qdcount, m.header.ancount, m.header.nscount, m.header.arcount), (0xbeef, 0x8000, 1, 0x0102, 0xff00, 0x00ff));
+        assert_eq!((m.question.qname.as_slice(), m.question.qtype, m.question.qclass), (qn, 0x1234, 0xfffe));
+        assert_eq!((m.answer.name.as_slice(), m.answer.rec_type, m.answer.class, m.answer.ttl, m.answer.rdlength, &m.answer.rdata), (an, 1, 1, ttl, rdata.len() as u16, &rdata));
+        assert_eq!(m.to_message().unwrap().to_vec(), wire, "re-encoding differs from the consumed bytes");
+    }
+}
